@@ -4,10 +4,21 @@ import "strings"
 
 func Find(p Meta, path string) Definition {
 	if strings.HasPrefix(path, "../") {
-		if p.Parent() == nil {
+		up := p.Parent()
+		// choice and case are not nodes of the data tree, the parent of
+		// what they hold is the node that holds the choice
+		for up != nil {
+			_, isChoice := up.(*Choice)
+			_, isCase := up.(*ChoiceCase)
+			if !isChoice && !isCase {
+				break
+			}
+			up = up.Parent()
+		}
+		if up == nil {
 			return nil
 		}
-		return Find(p.Parent(), path[3:])
+		return Find(up, path[3:])
 	}
 	if strings.HasPrefix(path, "/") {
 		return Find(RootModule(p), path[1:])
